@@ -143,6 +143,15 @@ impl WorkStealingQueue {
         self.local_queue.lock().unwrap_or_else(|e| e.into_inner()).pop_front()
     }
 
+    /// Take back a task that `balance` moved to this worker's own steal queue.
+    ///
+    /// The owner must drain its steal queue itself once its local queue is empty:
+    /// other workers only look there when they run out of work, and with a single
+    /// worker nobody else ever does.
+    fn pop_own_steal(&self) -> Option<Box<dyn Task>> {
+        self.steal_queue.lock().unwrap_or_else(|e| e.into_inner()).pop_front()
+    }
+
     /// Steal a task from this queue (FIFO for load balancing)
     pub fn steal(&self) -> Option<Box<dyn Task>> {
         // First try the steal queue
@@ -460,7 +469,7 @@ impl WorkStealingExecutor {
         }
     }
 
-    /// Find a task from local queue, other queues, or global queue
+    /// Find a task from local queue, own steal queue, global queue, or other queues
     fn find_task(
         my_queue: &WorkStealingQueue,
         other_queues: &[Arc<WorkStealingQueue>],
@@ -472,14 +481,19 @@ impl WorkStealingExecutor {
             return Some(task);
         }
 
-        // 2. Try global queue
+        // 2. Then the tasks this worker offered for stealing that nobody took
+        if let Some(task) = my_queue.pop_own_steal() {
+            return Some(task);
+        }
+
+        // 3. Try global queue
         if let Ok(mut queue) = global_queue.try_lock() {
             if let Some(task) = queue.pop_front() {
                 return Some(task);
             }
         }
 
-        // 3. Try to steal from other workers
+        // 4. Try to steal from other workers
         for other_queue in other_queues {
             if let Some(task) = other_queue.steal() {
                 stats.total_steals.fetch_add(1, Ordering::Relaxed);
